@@ -76,18 +76,18 @@ PROPS = {
         "level_text": "Lean 4 theorems over an abstract signature scheme: verify_iff_chain (acceptance under a root key is exactly: structural checks, authority signature under the root over the authority payload, every block signed by the previous next key over a payload containing its bytes, next key, algorithm, version and - version 1 - the actual previous signature and the external signature, external signatures over bytes + previous signature, proof = secret of the last next key or seal over last block + key + signature), and under an explicit unforgeability hypothesis: wrong_root_rejected, accepted_authority_is_honest, accepted_blocks_are_honest (every signature of an accepted token under a protected key is one an honest party made over exactly that payload), accepted_seal_is_honest, truncation_needs_earlier_secret; blockV1_injective_fixed / authorityV1_injective / externalV1_injective / sealed_injective / blockV0_injective (each payload determines every field it binds - version, block bytes, algorithm, next key, previous signature, external signature - whenever the two keys, the two previous signatures and the two external signatures have the lengths their algorithms fix; nothing is assumed about the block bytes), spliced_block_refused (under unforgeability and signatures that bind one message: a version-1 signature made by a protected key for block b0 after previous signature p0 is accepted, anywhere in any token, only on a block with b0's bytes, next key and external signature, placed after a block whose signature is p0 - moving, reordering or altering it is refused). The payload layouts in the theorems are regenerated from crypto/mod.rs on every run. Tie: tokens built through the API (both algorithms for root, block and external keys, signature versions 0 and 1, third-party blocks, sealed or not) and EVERY single structured mutation of the decoded wire message (each field of each block, swaps, drops, duplicates, splices between two tokens, proof manipulations, root key id, other root key, ECDSA (r, n-s)) are presented to Biscuit::from, from_base64 and UnverifiedBiscuit::verify; the compiled model predicts accept/reject with the ideal scheme whose valid signatures are exactly those of the honest tokens over the model-computed payloads.",
         "level_note": "Cryptographic assumptions (unforgeability, signature lengths) are hypotheses of the theorems, not theorems. Payload injectivity is proved for fields whose lengths the algorithms fix (keys; ed25519 signatures); for two DER-encoded ECDSA signatures of different lengths it is open. Known finding recorded: secp256r1 signatures (r, n-s) are accepted.",
         "rule": "chain stream: seeded histories (1-4 blocks, two independent tokens per case for splicing); every stage presented as is and under another root; all single structured mutations of the last two stages; non-trivial = a mutation case or an honest token with at least one appended block; distinct = distinct case JSON",
-        "trusted_base": ["tools/extract.py (payload layouts, schema field numbers regenerated from crypto/mod.rs and schema.proto)", "harness/src/s_chain.rs (history generator, structured mutations, prost decoding of the wire message)", "ed25519-dalek / p256 verifiers used independently of biscuit-auth to check real signatures over the model's payload bytes", "lean/Codec.lean, lean/Driver.lean"],
+        "trusted_base": ["tools/extract.py (payload layouts, schema field numbers regenerated from crypto/mod.rs and schema.proto)", "harness/src/s_chain.rs (history generator, structured mutations, prost decoding of the wire message)", "harness/src/s_convert.rs (message generator, schema <-> JSON, error classes read from the messages)", "tools/extract.py gen_convert", "ed25519-dalek / p256 verifiers used independently of biscuit-auth to check real signatures over the model's payload bytes", "lean/Codec.lean, lean/Driver.lean"],
         "assumptions": ["unforgeability of ed25519 / ECDSA P-256 for keys whose secret the adversary does not hold", "prost decodes the mutated wire message as the library does"],
         "open_obligations": ["payload injectivity when two DER-encoded ECDSA signatures of different lengths are compared (lengths are not fixed by the algorithm)"],
     },
     "C02": {
         "module": "BiscuitModel.Props.C02",
-        "more_modules": ["BiscuitModel.Props.C02Convert"],
+        "more_modules": ["BiscuitModel.Props.C02Convert", "BiscuitModel.Props.C02Normal"],
         "streams": ["chain", "convert"],
-        "level_text": "Lean 4 theorems: wire_round_trip (decoding the protobuf encoding of ANY container - authority block, any number of blocks, third-party signatures, versions, root key id, either proof - gives the container back, for fields that fit their length prefixes; the decoder follows prost: any field order, last occurrence wins, repeated fields accumulate; built on varint_round_trip, decFields_fuel_irrel, decAll_fVarint / decAll_fBytes / decAll_repeated of Lemmas/WireDec; on every honest token of the chain stream the model decoder is run on the presented bytes and must give what prost gives); payloads_eq_spec and the gen_*_eq_spec family (each of the seven payload layouts regenerated from crypto/mod.rs equals the layout written from the Biscuit specification), unknown_signature_version_refused, new_token_verifies / append_verifies / seal_verifies and built_tokens_verify (every token produced by ANY history of build, append, append-third-party and seal operations, with any algorithms, verifies under the issuing root key - induction over the history, assuming only that a signature made with a secret verifies under its public key), the signature-version rule (sigVersion_third_party, _datalog33, _non_ed25519, _ed25519, _never_back, _le_one). Tie: every stage of every generated history must be accepted by Biscuit::from, from_base64 and UnverifiedBiscuit::from+verify, expose the same revocation ids / external keys / root key id / block count as the model, re-serialize to identical bytes, equal the model's own protobuf encoding byte for byte, and every signature in it must verify - with ed25519-dalek / p256 used directly, not through biscuit-auth - over the payload bytes the Lean model computes.",
-        "level_note": "Scheme correctness is a hypothesis. The wire decoder is modelled for the container messages (Model/WireDec); block contents (the Datalog payload) are opaque bytes at this level.",
-        "rule": "chain stream (see C01); for C02 the honest stages are the cases that matter: non-trivial = honest stage with at least one appended block",
-        "trusted_base": ["tools/extract.py (payload layouts, schema field numbers regenerated from crypto/mod.rs and schema.proto)", "harness/src/s_chain.rs (history generator, structured mutations, prost decoding of the wire message)", "ed25519-dalek / p256 verifiers used independently of biscuit-auth to check real signatures over the model's payload bytes", "lean/Codec.lean, lean/Driver.lean"],
+        "level_text": "Lean 4 theorems: block_round_trip (Props/C02Convert, about Model/Convert - the model of format/convert.rs: EVERY block that passes the version gate and whose sets and maps are what BTreeSet / BTreeMap hold, with sets of one kind of element, is read back from the protobuf message token_block_to_proto_block writes for it as exactly that block: symbols, context, version, facts, rules with expressions and scopes, checks with their kinds, block scopes, public keys, external key; through term_rt / op_rt / rule_rt / check_rt and the operator, check-kind, scope-type and set-element tables regenerated from convert.rs and schema.rs on every run: unary_table, binary_table, check_kind_table, ffi_name_checked), reader_normal_form (Props/C02Normal: whatever message proto_block_to_token_block accepts - repeated set elements, repeated map keys, explicit default check kinds - the block it returns is written and read back as itself, so further serialization round trips change nothing), accepted_content_ok, mixed_set_refused (the witness that a set of two kinds of elements is written and then refused); wire_round_trip (decoding the protobuf encoding of ANY container - authority block, any number of blocks, third-party signatures, versions, root key id, either proof - gives the container back, for fields that fit their length prefixes; the decoder follows prost: any field order, last occurrence wins, repeated fields accumulate; built on varint_round_trip, decFields_fuel_irrel, decAll_fVarint / decAll_fBytes / decAll_repeated of Lemmas/WireDec; on every honest token of the chain stream the model decoder is run on the presented bytes and must give what prost gives); payloads_eq_spec and the gen_*_eq_spec family (each of the seven payload layouts regenerated from crypto/mod.rs equals the layout written from the Biscuit specification), unknown_signature_version_refused, new_token_verifies / append_verifies / seal_verifies and built_tokens_verify (every token produced by ANY history of build, append, append-third-party and seal operations, with any algorithms, verifies under the issuing root key - induction over the history, assuming only that a signature made with a secret verifies under its public key), the signature-version rule (sigVersion_third_party, _datalog33, _non_ed25519, _ed25519, _never_back, _le_one). Tie: every stage of every generated history must be accepted by Biscuit::from, from_base64 and UnverifiedBiscuit::from+verify, expose the same revocation ids / external keys / root key id / block count as the model, re-serialize to identical bytes, equal the model's own protobuf encoding byte for byte, and every signature in it must verify - with ed25519-dalek / p256 used directly, not through biscuit-auth - over the payload bytes the Lean model computes.",
+        "level_note": "Scheme correctness is a hypothesis. The wire decoder is modelled for the container messages (Model/WireDec); for the block message the conversion between the decoded message and the block is modelled (Model/Convert, tied by the convert stream), prost's byte level of that message is not. PublicKey::from_proto is a parameter of the conversion model (the harness says which keys it refuses).",
+        "rule": "chain stream (see C01); for C02 the honest stages are the cases that matter: non-trivial = honest stage with at least one appended block. convert stream: corpus first, then generated schema::Block messages (valid for their declared version; with features above it; faulty: unset oneofs, enumeration numbers out of range, ffi names missing or superfluous, ill-typed sets, check kinds, scope types, duplicate or malformed keys, default symbols, versions out of range, third-party below 3.2), every fourth through the snapshot reader; non-trivial = refused, or at least one rule or check",
+        "trusted_base": ["tools/extract.py (payload layouts, schema field numbers regenerated from crypto/mod.rs and schema.proto)", "harness/src/s_chain.rs (history generator, structured mutations, prost decoding of the wire message)", "harness/src/s_convert.rs (message generator, schema <-> JSON, error classes read from the messages)", "tools/extract.py gen_convert", "ed25519-dalek / p256 verifiers used independently of biscuit-auth to check real signatures over the model's payload bytes", "lean/Codec.lean, lean/Driver.lean"],
         "assumptions": ["EdDSA / ECDSA correctness"],
         "open_obligations": [],
     },
@@ -106,7 +106,7 @@ PROPS = {
         "level_text": "Lean 4 theorems: sealed_is_final (every append, third-party append, third-party request and re-seal on a sealed container is refused, whatever its arguments), sealed_history_refused, seal_is_sealed, seal_preserves (authority, blocks, root key id, revocation identifiers and external keys unchanged - hence the same authorization result, since C04's authorize reads only the blocks), seal_verifies, seal_binds_last_block (an accepted sealed token's final signature is a signature by the last next key over the last block's bytes, next key and signature) with seal_payload_injective. Tie: chain stream (sealed stages, all structured mutations of sealed tokens incl. seal flip/extend/replace, block add/remove/alter) and authz stream (every case is also authorized after seal(): outcome must be identical).",
         "level_note": "Cryptographic assumptions are hypotheses. Operations after seal on the implementation side are exercised by the chain stream's seal stages and by the authz stream; every operation (append, append_third_party, third_party_request, seal) is also attempted on sealed tokens through Biscuit and UnverifiedBiscuit, in memory and reloaded, and must be refused as the model's state machine says.",
         "rule": "chain stream (see C01) restricted in spirit to sealed stages; authz stream compares authorize on token, reloaded token and sealed token",
-        "trusted_base": ["tools/extract.py (payload layouts, schema field numbers regenerated from crypto/mod.rs and schema.proto)", "harness/src/s_chain.rs (history generator, structured mutations, prost decoding of the wire message)", "ed25519-dalek / p256 verifiers used independently of biscuit-auth to check real signatures over the model's payload bytes", "lean/Codec.lean, lean/Driver.lean"],
+        "trusted_base": ["tools/extract.py (payload layouts, schema field numbers regenerated from crypto/mod.rs and schema.proto)", "harness/src/s_chain.rs (history generator, structured mutations, prost decoding of the wire message)", "harness/src/s_convert.rs (message generator, schema <-> JSON, error classes read from the messages)", "tools/extract.py gen_convert", "ed25519-dalek / p256 verifiers used independently of biscuit-auth to check real signatures over the model's payload bytes", "lean/Codec.lean, lean/Driver.lean"],
         "assumptions": ["unforgeability for the last next key"],
             },
     "C12": {
@@ -120,7 +120,7 @@ PROPS = {
     },
     "C13": {
         "module": "BiscuitModel.Props.C13",
-        "more_modules": ["BiscuitModel.Props.C02Convert"],
+        "more_modules": ["BiscuitModel.Props.C02Convert", "BiscuitModel.Props.C02Normal"],
         "streams": ["snapshot", "authz", "convert"],
         "level_text": "Lean 4 theorems: intern_resolve (an interned string resolves to itself), insert_stable (earlier indices keep their meaning), restore_symbols and restore_keys (re-inserting, one by one, the symbol table and the public-key table a snapshot stores rebuilds exactly the tables the snapshot was written against - for every table produced by interning, snapshot_table_wf - so every symbol and key index in the snapshot keeps its meaning), key_map_restored (the restored key-to-blocks map registers every block, so a scope naming the key of a LATER block trusts it). Tie: for every generated token + authorizer (third-party blocks with their own symbols and keys, scopes naming keys of later blocks), snapshot taken before run, after run and after a failed run, raw and base64: the restored authorizer's decision and query answers are compared with the compiled model's, and an implementation-only oracle compares original and restored authorizer (Display: facts per origin, rules, checks, policies; limits; counters; authorize; queries), the builder snapshot round trip (dump_code, authorize) and the saved-policies round trip. The authz stream adds, for every generated token and authorizer (third-party blocks, key scopes on authorizer rules, checks and policies), the outcome of the authorizer restored from a snapshot taken before anything ran: it must be the outcome of the authorizer itself, which is the outcome of the model.",
         "level_note": "Partial: that the restored authorizer BEHAVES like the original is established by the stream (the theorems give equality of the tables everything is expressed in, not invariance of evaluation under re-interning). Known finding: saved policies that name a public key cannot be restored (no key table in the AuthorizerPolicies message).",
@@ -145,16 +145,16 @@ PROPS = {
         "level_text": "Lean 4 theorems: revocation_ids_are_signatures, op_ids_prefix and ids_prefix_stable (after any history of appends, third-party appends and a seal the identifier list has the previous list as a prefix), non_malleable_strict (with unique signatures - what ed25519 strict verification provides - two accepted tokens carrying the same signed content have the same identifiers, by induction along the chain), and ecdsa_last_id_witness (with a scheme that accepts two signatures per message the last identifier IS malleable: the full statement is false of the code for secp256r1). Tie: chain stream compares the identifiers of every accepted presentation (verified and unverified path, in memory vs reloaded) with the model, and includes the crafted (r, n-s) variant of every secp256r1 signature and trailing-byte variants of every signature.",
         "level_note": "Uniqueness across independently minted tokens rests on fresh next keys being in the signed payload (C01 injectivity) and on the scheme; not a separate theorem. Known finding: ECDSA malleability.",
         "rule": "chain stream (see C01); non-trivial = accepted presentation with at least two blocks or a signature-level mutation",
-        "trusted_base": ["tools/extract.py (payload layouts, schema field numbers regenerated from crypto/mod.rs and schema.proto)", "harness/src/s_chain.rs (history generator, structured mutations, prost decoding of the wire message)", "ed25519-dalek / p256 verifiers used independently of biscuit-auth to check real signatures over the model's payload bytes", "lean/Codec.lean, lean/Driver.lean"],
+        "trusted_base": ["tools/extract.py (payload layouts, schema field numbers regenerated from crypto/mod.rs and schema.proto)", "harness/src/s_chain.rs (history generator, structured mutations, prost decoding of the wire message)", "harness/src/s_convert.rs (message generator, schema <-> JSON, error classes read from the messages)", "tools/extract.py gen_convert", "ed25519-dalek / p256 verifiers used independently of biscuit-auth to check real signatures over the model's payload bytes", "lean/Codec.lean, lean/Driver.lean"],
         "assumptions": ["unique signatures for ed25519 (strict verification)"],
     },
     "C16": {
         "module": "BiscuitModel.Props.C16",
-        "more_modules": ["BiscuitModel.Props.C02Convert"],
+        "more_modules": ["BiscuitModel.Props.C02Convert", "BiscuitModel.Props.C02Normal"],
         "streams": ["versions", "chain", "convert"],
-        "level_text": "Lean 4 theorems re-checked on every run against detector tables and compatibility ladder regenerated from datalog/mod.rs (Gen/Detectors.lean): bin33_table, bin31_table, un33_table, closure_table, check_kind_table, term33_detected (the code's detectors recognise exactly the features the specification puts in 3.1 / 3.3, for every operator and for terms nested to any depth), declared_version_spec (for EVERY block the builders declare exactly the lowest version covering its contents), third_party_at_least_32, spec_version_values, compatible_sound and gate_sound (whatever passes the load gate declares a version in [3,6], at least the specification's version for its contents, and at least 3.2 if third-party), builder_blocks_pass_own_gate, chained_when_needed and never_back (signature scheme). Tie: the complete finite enumeration - one block per operator (in a check and in a rule), per unary, per term kind incl. nested null/array/map in facts, rule heads, rule bodies, check bodies and expression values, per check kind, per scope position - built through the builders as authority / appended / third-party block (declared version and signature version compared), and every one of them re-declared with versions 0..8, correctly re-signed as first- and third-party block, then loaded (gate compared); plus generated blocks.",
+        "level_text": "Lean 4 theorems re-checked on every run against detector tables and compatibility ladder regenerated from datalog/mod.rs (Gen/Detectors.lean): bin33_table, bin31_table, un33_table, closure_table, check_kind_table, term33_detected (the code's detectors recognise exactly the features the specification puts in 3.1 / 3.3, for every operator and for terms nested to any depth), declared_version_spec (for EVERY block the builders declare exactly the lowest version covering its contents), third_party_at_least_32, spec_version_values, compatible_sound and gate_sound (whatever passes the load gate declares a version in [3,6], at least the specification's version for its contents, and at least 3.2 if third-party), builder_blocks_pass_own_gate, chained_when_needed and never_back (signature scheme); accepted_passes_gate and snapshot_accepted_passes_gate (Props/C02Convert: every block the model of proto_block_to_token_block / proto_snapshot_block_to_token_block returns satisfies that load gate - the gate is not only stated on its own but derived from the reader as the code has it: version range, the pass over check kinds, scopes on rules, third-party blocks, check_compatibility with the error it reports; snapshot_third_party_below_32: the snapshot reader has no rule for third-party blocks below 3.2). Tie: the complete finite enumeration - one block per operator (in a check and in a rule), per unary, per term kind incl. nested null/array/map in facts, rule heads, rule bodies, check bodies and expression values, per check kind, per scope position - built through the builders as authority / appended / third-party block (declared version and signature version compared), and every one of them re-declared with versions 0..8, correctly re-signed as first- and third-party block, then loaded (gate compared); plus generated blocks.",
         "level_note": "Trusted: the translator (checked by the stream: the model's tables decide the same blocks as the running code), harness signing fixture (payload layouts used only to craft inputs). The key-algorithm sequences of the signature-version rule are tied by the chain stream (C02).",
-        "rule": "versions stream: exhaustive over the feature list x {authority, appended, third-party} and x declared versions 0..8 x {first, third party}; plus seeded generated blocks; non-trivial = every case except the plain-fact baseline; distinct = distinct case JSON",
+        "rule": "convert stream (see C02; judged here: the cases whose features exceed the declared version or whose version is not the highest); versions stream: exhaustive over the feature list x {authority, appended, third-party} and x declared versions 0..8 x {first, third party}; plus seeded generated blocks; non-trivial = every case except the plain-fact baseline; distinct = distinct case JSON",
         "trusted_base": ["tools/extract.py gen_detectors", "harness/src/s_versions.rs (feature list, craft_append signing fixture)", "lean/Codec.lean, lean/Driver.lean"],
         "assumptions": [],
     },
